@@ -101,7 +101,8 @@ def check(ctx):
 
         def dispatch_of(evs):
             """The call that hands a packet on: a method call on self, from the framer's own frame, whose argument is a slice of the carry."""
-            cands = [e for e in evs if e.kind == "CALL" and e.a["recv"] == SELF and e.func == framer_q and e.a["args"] and mentions(e.a["args"][0], B)]
+            cands = [e for e in evs if e.kind == "CALL" and e.a["recv"] == SELF and e.a["args"] and mentions(e.a["args"][0], B)
+                     and (e.func == framer_q or any(fr[2] == framer_q for fr in e.stack))]
             sl = [e for e in cands if isinstance(e.a["args"][0], tuple) and e.a["args"][0][0] == "slice"]
             if sl:
                 return sl[0]
@@ -222,6 +223,13 @@ def check(ctx):
                 for x in subterms(c.term):
                     if isinstance(x, tuple) and x[:2] == ("sub", B) and isinstance(x[2], tuple) and x[2][0] == "unk":
                         scan_vars.add(x[2])
+            # a local that takes the scan variable's value on the way out of the scan loop (last = i; break) stands for it afterwards
+            for lp in scan_loops:
+                for sb in lp.a["body"]:
+                    if sb.exit_kind() == "break" and sb.st is not None:
+                        for nm, v in sb.st.env.items():
+                            if v in scan_vars and isinstance(nm, str):
+                                scan_vars.add(("unk", "%s@loop%s" % (nm, lp.a.get("loop"))))
             # the scan variable starts at 1 (byte 0 is the type/flags byte): its value before the scan loop
             scan_ok = False
             for lp in scan_loops:
@@ -259,6 +267,13 @@ def check(ctx):
                 for x in subterms(c.term):
                     if isinstance(x, tuple) and x[0] == "binop" and x[1] == "BitAnd" and isinstance(x[2], tuple) and x[2][:2] == ("sub", B) and is_const(x[3]):
                         masks.add(x[3][1])
+                    # the same bit tested on the whole byte: b < 0x80 / b >= 0x80 / b > 0x7F / b <= 0x7F
+                    if isinstance(x, tuple) and x[0] == "cmp" and isinstance(x[2], tuple) and x[2][:2] == ("sub", B) and is_const(x[3]) \
+                            and isinstance(x[3][1], int):
+                        if x[1] in ("<", ">="):
+                            masks.add(x[3][1])
+                        elif x[1] in (">", "<="):
+                            masks.add(x[3][1] + 1)
             ctx.ob("F3", "%s width scan tests the continuation bit decodeLength uses" % cq, bool(masks) and masks <= cont and bool(cont), where=where(D),
                    function=framer_q, construct="%s/continuation-mask" % framer_q,
                    msg="the framer scans with mask %s, decodeLength continues on %s" % (sorted(masks), sorted(cont)))
